@@ -37,9 +37,11 @@ CHECKS = {
              "(3.36 M outcomes re-expanded and compared in Coq) plus boundary values, floats by exact bit pattern (Flocq binary_normalize), strings, non-scalars.",
         ref="5 C05", technique="Coq theorems by case analysis + lia; exhaustive in-Coq differential sweep; Flocq-computed IEEE conversions compared bit for bit",
         note="Trusted: Coq kernel + vm_compute, model Scalars.v/Fround.v, harness, emitter. Theorems closed under the global context. Floats: c05_f64_total / c05_f32_total "
-             "(the three numeric kinds are accepted without any call, everything else is one IncorrectValueKind) and c05_round_even_nearest (the rounding primitive of every conversion is "
-             "round-to-nearest, ties-to-even, in integer arithmetic) are theorems; the assembly of the IEEE fields around it is tied by bit-exact three-way comparison (implementation / Fround / "
-             "Flocq binary_normalize) only: partial for floats. usize = 64 bits assumed."),
+             "(the three numeric kinds are accepted without any call, everything else is one IncorrectValueKind); integers -> f64 / f32 are the IEEE conversion: exact up to 53 / 24 significant bits "
+             "(c05_f64_of_int_exact, c05_f32_of_int_exact), otherwise q * 2^(size-53) with q the nearest integer to m / 2^(size-53), ties to even, carry into the exponent "
+             "(c05_f64_of_int_rounded, c05_f32_of_int_rounded, c05_round_even_nearest), sign bit for negatives (c05_float_of_negative) - all in integer arithmetic, no reals. Partial: f64 -> f32 "
+             "narrowing and NaN canonicalisation have no theorem (bit-exact three-way comparison implementation / Fround / Flocq binary_normalize on every run). "
+             "usize = 64 bits assumed."),
     "C13": dict(
         text="Proof: for every document serde_json can hold (wf_json: u64 / negative i64 / finite f64, sorted unique keys), at any depth and size: Deserr for "
              "serde_json::Value returns Ok of the same document without a single call to the error type under any script; From<Value> gives the document back; "
